@@ -86,9 +86,9 @@ CLAIMS.update({
    note="Behaviour over volume trajectories ('never reappears' over histories, NaN/inf of the logarithm) is not decided; clamps are matched as idioms, branch conditions are not interpreted.",
    ref="DESIGN.md section 4 C04"),
  "C12": dict(
-   technique="polynomial identities on the per-face / per-node contributions (LF engine), structural matching of accumulations and running extrema",
-   text="Decides exact formula clauses: the volume integrand (and the signed-volume sibling in the orientation check) is the scalar triple product of the face's own nodes, volume = |sum|/6, inside-out cells are flipped through a reference; face area = |cross|/2 and normal = normalised cross product; centroid contribution = (x1+x2+x3)/3*area over used faces, divided by area_; area = sum of used faces' areas; the bounding box keeps per-axis running extrema over used nodes from +/-infinity and returns (min xyz, max xyz); the covariance entries accumulate (p_a-c_a)(p_b-c_b) for the matching axes into a symmetric matrix.",
-   note="Frame independence, independence of the element numbering, the flood-fill orientation repair and the eigen-solver's accuracy are not decided.",
+   technique="polynomial identities on the per-face / per-node contributions (LF engine), structural matching of accumulations and running extrema, 3x3 index-layout interpretation of constructor/transpose/get_col",
+   text="Decides exact formula clauses: the volume integrand (and the signed-volume sibling in the orientation check) is the scalar triple product of the face's own nodes, volume = |sum|/6, inside-out cells are flipped through a reference; face area = |cross|/2 and normal = normalised cross product; centroid contribution = (x1+x2+x3)/3*area over used faces, divided by area_; area = sum of used faces' areas; the bounding box keeps per-axis running extrema over used nodes from +/-infinity and returns (min xyz, max xyz); the covariance entries accumulate (p_a-c_a)(p_b-c_b) for the matching axes into a symmetric matrix; the index conventions of the mat33 constructor, transpose and get_col compose so that the axis returned when eval[k] dominates is the solver's evec[k] in component order.",
+   note="Trusted: the eigen solver's convention evec[k] <-> eval[k]. Frame independence, independence of the element numbering, the flood-fill orientation repair and the eigen-solver's accuracy are not decided.",
    ref="DESIGN.md section 4 C12"),
 })
 
